@@ -107,7 +107,14 @@ fn judge_total(acc: &mut Acc, s: &dyn Subject, class: &str, bytes: &[u8], judge:
     let total_budget = 256 * 1024 + 1024 * len;
     if stats.alloc.max_single > single_budget || stats.alloc.total > total_budget {
         // a huge count of zero-width elements also costs memory in node-based containers (LinkedList<()>): same finding
-        let kind = if stats.steps > len as u64 + 1024 && is_zero_width_count_case(s, bytes) { ":zero_width_elements" } else { "" };
+        let kind = if stats.steps > len as u64 + 1024 && is_zero_width_count_case(s, bytes) {
+            ":zero_width_elements"
+        } else if refmodel::ref_backref_cost(&s.ty(), bytes) >= stats.alloc.total / 8 {
+            // citations of 1-2 bytes that each stand for a long string: the copies account for the allocation (known finding D26)
+            ":back_references"
+        } else {
+            ""
+        };
         acc.violation(
             format!("C05|alloc{kind}|{}", s.id()),
             replay_decode("C05", s.id(), bytes, class)
@@ -296,6 +303,45 @@ fn hostile_for_subject(ctx: &mut Ctx, acc: &mut Acc, id: &str, plan: &Plan, c05:
         }
     }
 
+    // (b3) tuples and version-0 records dressed up as version-1 data whose header names one of the reader's own fields
+    // as removed (no writer of this library produces that for a tuple; a foreign or hostile one can)
+    let fields: Option<Vec<(String, Ty, bool)>> = match ty.resolved() {
+        Ty::Tuple(ts) => Some(ts.iter().enumerate().map(|(i, t)| (format!("_{i}"), t.clone(), false)).collect()),
+        Ty::Record(r) if r.steps.is_empty() && r.fields.iter().all(|f| !f.transient) => Some(r.fields.iter().map(|f| (f.name.clone(), f.ty.clone(), f.opt_by_name)).collect()),
+        _ => None,
+    };
+    if let Some(fields) = fields {
+        for vi in 0..plan.tamper_values.min(6) {
+            let mut rng = ctx.rng_for(tag ^ 0xB3, id, vi);
+            let v = gen_val(&ty, &mut rng, &ctx.gen);
+            let xs = match &v {
+                Val::Tuple(xs) | Val::Rec(xs) => xs.clone(),
+                _ => continue,
+            };
+            let mut chunk0 = Vec::new();
+            let mut ok = xs.len() == fields.len();
+            for ((_, fty, _), x) in fields.iter().zip(&xs) {
+                match refmodel::ref_encode(fty, x) {
+                    Ok(b) => chunk0.extend_from_slice(&b),
+                    Err(_) => ok = false,
+                }
+            }
+            if !ok || chunk0.len() > 16 * 1024 {
+                continue;
+            }
+            for (name, _, _) in fields.iter().take(12) {
+                let mut bytes = vec![1u8];
+                bytes.extend_from_slice(&refmodel::enc::vi_bytes(chunk0.len() as i32));
+                bytes.extend_from_slice(&refmodel::enc::vi_bytes(-2));
+                bytes.extend_from_slice(&refmodel::enc::vi_bytes(name.len() as i32));
+                bytes.extend_from_slice(name.as_bytes());
+                bytes.extend_from_slice(&chunk0);
+                visit(&mut ctx.crumb, acc, "own_field_named_as_removed", &bytes, true);
+                acc.count("tampered:own_field_named_as_removed");
+            }
+        }
+    }
+
     // (c) random bytes with the varint dictionary
     for ri in 0..plan.random {
         let mut rng = ctx.rng_for(tag ^ 0xAA, id, ri);
@@ -403,6 +449,35 @@ pub fn tolerant_workload(ctx: &mut Ctx, acc: &mut Acc, judge: bool, content: boo
     }
 }
 
+/// `DeepRec` data in which every level is written as version 1 with the steps [chunk 0, FieldRemoved(name)]: the
+/// outermost header spells the name out (`name_len` bytes), every inner one cites it by id (one byte)
+fn header_name_at_every_level(name_len: usize, depth: usize) -> Vec<u8> {
+    use refmodel::enc::vi_bytes;
+    // innermost first: chunk 0 = v (1 byte) + next tag
+    let mut inner: Vec<u8> = Vec::new(); // encoding of the record below, empty for the innermost level
+    for level in (0..depth).rev() {
+        let mut chunk0 = vec![(level % 251) as u8];
+        if inner.is_empty() {
+            chunk0.push(0);
+        } else {
+            chunk0.push(1);
+            chunk0.extend_from_slice(&inner);
+        }
+        let mut rec = vec![1u8];
+        rec.extend_from_slice(&vi_bytes(chunk0.len() as i32));
+        rec.extend_from_slice(&vi_bytes(-2));
+        if level == 0 {
+            rec.extend_from_slice(&vi_bytes(name_len as i32));
+            rec.extend(std::iter::repeat(b'n').take(name_len));
+        } else {
+            rec.push(0x01); // vi(-1): string id 1
+        }
+        rec.extend_from_slice(&chunk0);
+        inner = rec;
+    }
+    inner
+}
+
 /// inputs that are always run: the witnesses of known findings and of repaired defects
 fn pinned_cases(ctx: &mut Ctx, acc: &mut Acc, c05: bool, c06: bool) {
     if ctx.shard != 0 {
@@ -437,6 +512,17 @@ fn pinned_cases(ctx: &mut Ctx, acc: &mut Acc, c05: bool, c06: bool) {
         // D4: constructor index beyond the declaration
         ("DeepEnum", vec![0x00, 0x09]),
         ("DeepEnum", vec![0x00, 0xff, 0xff, 0xff, 0xff, 0x0f]),
+        // D26: one long string and many citations of it (a deduplicated string as element; a header name at every level of a
+        // recursive record)
+        ("Vec<DeduplicatedString>", {
+            let (n, m) = (20_000usize, 4_000usize);
+            let mut b = refmodel::enc::vi_bytes((m + 1) as i32);
+            b.extend_from_slice(&refmodel::enc::vi_bytes(n as i32));
+            b.extend(std::iter::repeat(b'x').take(n));
+            b.extend(std::iter::repeat(0x01u8).take(m));
+            b
+        }),
+        ("DeepRec", header_name_at_every_level(32 * 1024, 1500)),
         // a name removed and re-added: data of the version in between (header: chunk 0 of 4 bytes, `x` removed) reads with the default
         ("ReusedName", vec![0x01, 0x08, 0x03, 0x02, b'x', 0, 0, 0, 5]),
         ("ReusedNameOpt", vec![0x01, 0x08, 0x03, 0x02, b'x', 0, 0, 0, 5]),
@@ -444,6 +530,9 @@ fn pinned_cases(ctx: &mut Ctx, acc: &mut Acc, c05: bool, c06: bool) {
         ("ReusedName", vec![0x00, 0, 0, 0, 5, 0, 0, 0, 6]),
     ];
     for (id, bytes) in cases {
+        if cfg!(miri) && bytes.len() > 4096 {
+            continue; // the amplification witnesses move hundreds of megabytes: not under the interpreter
+        }
         if ctx.reg.get(id).is_none() {
             acc.inconclusive(format!("pinned case: subject {id} missing from the catalogue"));
             continue;
